@@ -31,6 +31,7 @@ import (
 	"os"
 	"reflect"
 	"sort"
+	"sync"
 	"time"
 
 	"github.com/go-logr/logr"
@@ -40,6 +41,7 @@ import (
 	metav1 "k8s.io/apimachinery/pkg/apis/meta/v1"
 	"k8s.io/apimachinery/pkg/runtime"
 	"k8s.io/apimachinery/pkg/types"
+	"k8s.io/apimachinery/pkg/watch"
 	kubefake "k8s.io/client-go/kubernetes/fake"
 	k8stesting "k8s.io/client-go/testing"
 	"k8s.io/client-go/tools/record"
@@ -128,15 +130,38 @@ type world struct {
 	att     map[string]int  // binding sub-resource calls of the current incarnation
 	fl      map[string]int  // failed reconciles of the current incarnation
 	restarts, flips int
+
+	watchMu  sync.Mutex
+	watching map[string]bool
 }
 
 func int32p(v int32) *int32 { return &v }
 
 func newWorld(sc scenario, pods []string) *world {
-	w := &world{sc: sc, pods: pods, created: map[string]int{}, q: map[string]bool{}, att: map[string]int{}, fl: map[string]int{}}
+	w := &world{sc: sc, pods: pods, watching: map[string]bool{}, created: map[string]int{}, q: map[string]bool{}, att: map[string]int{}, fl: map[string]int{}}
 	w.kube = kubefake.NewSimpleClientset()
 	w.kai = kaifake.NewSimpleClientset()
 	ctx := context.Background()
+	// The fake object tracker does not replay changes made between an informer's List and its Watch: record when
+	// each watch is registered, so that no step runs before the scheduler's informers really follow the store.
+	trackWatches := func(f *k8stesting.Fake, tracker k8stesting.ObjectTracker) {
+		f.PrependWatchReactor("*", func(a k8stesting.Action) (bool, watch.Interface, error) {
+			var opts metav1.ListOptions
+			if wa, ok := a.(k8stesting.WatchActionImpl); ok {
+				opts = wa.ListOptions
+			}
+			wi, err := tracker.Watch(a.GetResource(), a.GetNamespace(), opts)
+			if err != nil {
+				return false, nil, err
+			}
+			w.watchMu.Lock()
+			w.watching[a.GetResource().Resource] = true
+			w.watchMu.Unlock()
+			return true, wi, nil
+		})
+	}
+	trackWatches(&w.kube.Fake, w.kube.Tracker())
+	trackWatches(&w.kai.Fake, w.kai.Tracker())
 
 	// the BindRequest is created by the real cache.Bind; spec.backoffLimit is set on admission (the scheduler
 	// leaves it nil), the store assigns the UID.
@@ -205,6 +230,22 @@ func newWorld(sc scenario, pods []string) *world {
 	// moment so that the first check usually succeeds. Correctness does not depend on this (waitInformers).
 	time.Sleep(4 * time.Millisecond)
 	w.cache.WaitForCacheSync(w.stopCh)
+	deadline := time.Now().Add(syncTimeout)
+	for {
+		w.watchMu.Lock()
+		up := true
+		for _, r := range []string{"pods", "nodes", "bindrequests", "podgroups", "queues"} {
+			up = up && w.watching[r]
+		}
+		w.watchMu.Unlock()
+		if up {
+			break
+		}
+		if time.Now().After(deadline) {
+			infra("the scheduler's informers did not start watching within %v", syncTimeout)
+		}
+		time.Sleep(200 * time.Microsecond)
+	}
 
 	// binder side
 	w.scheme = runtime.NewScheme()
